@@ -81,7 +81,7 @@ VARIABLES st, fl, retx, bk, est,
           tick,    \* server: "none" | "pending"
           q,       \* network: per direction ("c2s", "s2c") the datagrams in flight in emission order, each [k, c] with
                    \* c = "n" (one copy) or "d" (the network duplicated it: delivering it leaves a stale twin)
-          stale,   \* per direction: number of stale twins (same record numbers: the replay window discards them)
+          stale,   \* per direction: second copies of duplicated datagrams still to arrive (same record numbers)
           drops, dups, reorders, touts, emits, cause, hist
 vars == <<st, fl, retx, bk, est, gotCH, gotF5, pend, have, queue, owe, seenT, tick, q, stale, drops, dups, reorders, touts, emits, cause, hist>>
 viewv == <<st, fl, retx, bk, est, gotCH, gotF5, pend, have, queue, owe, seenT, tick, q, stale, drops, dups, reorders, touts, emits, cause>>
@@ -166,35 +166,44 @@ ReactC(k) ==
          ELSE same
     [] OTHER -> same
 
+\* what endpoint-side processing of datagram content k does to the whole state (net without k is passed in)
+Process(d, k, rest) ==
+  IF d = "c2s"
+  THEN LET r == ReactS(k) IN
+       /\ fl' = [fl EXCEPT !["s"] = r.fl] /\ st' = [st EXCEPT !["s"] = r.st] /\ retx' = [retx EXCEPT !["s"] = r.retx]
+       /\ bk' = [bk EXCEPT !["s"] = r.bk] /\ est' = [est EXCEPT !["s"] = r.est]
+       /\ gotCH' = r.gotCH /\ gotF5' = r.gotF5 /\ pend' = r.pend /\ tick' = r.tick
+       /\ q' = PutAll(rest, r.out) /\ emits' = r.out
+       /\ UNCHANGED <<have, queue, owe, seenT>>
+  ELSE LET r == ReactC(k) IN
+       /\ fl' = [fl EXCEPT !["c"] = r.fl] /\ st' = [st EXCEPT !["c"] = r.st] /\ retx' = [retx EXCEPT !["c"] = r.retx]
+       /\ bk' = [bk EXCEPT !["c"] = r.bk] /\ est' = [est EXCEPT !["c"] = r.est]
+       /\ have' = r.have /\ queue' = r.queue /\ owe' = r.owe /\ seenT' = r.seenT
+       /\ q' = PutAll(rest, r.out) /\ emits' = r.out
+       /\ UNCHANGED <<gotCH, gotF5, pend, tick>>
+
 \* the datagram at position i of direction d is delivered; anything but the head costs one unit of the reordering budget
 Deliver(d, i) ==
   /\ ~Done /\ i \in 1..Len(q[d])
   /\ (i > 1 => reorders < MaxReorder)
   /\ reorders' = IF i > 1 THEN reorders + 1 ELSE reorders
-  /\ LET k == q[d][i].k
-         rest == [q EXCEPT ![d] = RemoveAt(@, i)] IN
-     /\ stale' = IF q[d][i].c = "d" THEN [stale EXCEPT ![d] = @ + 1] ELSE stale
-     /\ IF d = "c2s"
-        THEN LET r == ReactS(k) IN
-             /\ fl' = [fl EXCEPT !["s"] = r.fl] /\ st' = [st EXCEPT !["s"] = r.st] /\ retx' = [retx EXCEPT !["s"] = r.retx]
-             /\ bk' = [bk EXCEPT !["s"] = r.bk] /\ est' = [est EXCEPT !["s"] = r.est]
-             /\ gotCH' = r.gotCH /\ gotF5' = r.gotF5 /\ pend' = r.pend /\ tick' = r.tick
-             /\ q' = PutAll(rest, r.out) /\ emits' = r.out
-             /\ UNCHANGED <<have, queue, owe, seenT>>
-        ELSE LET r == ReactC(k) IN
-             /\ fl' = [fl EXCEPT !["c"] = r.fl] /\ st' = [st EXCEPT !["c"] = r.st] /\ retx' = [retx EXCEPT !["c"] = r.retx]
-             /\ bk' = [bk EXCEPT !["c"] = r.bk] /\ est' = [est EXCEPT !["c"] = r.est]
-             /\ have' = r.have /\ queue' = r.queue /\ owe' = r.owe /\ seenT' = r.seenT
-             /\ q' = PutAll(rest, r.out) /\ emits' = r.out
-             /\ UNCHANGED <<gotCH, gotF5, pend, tick>>
+  /\ stale' = IF q[d][i].c = "d" THEN [stale EXCEPT ![d] = Append(@, q[d][i].k)] ELSE stale
+  /\ Process(d, q[d][i].k, [q EXCEPT ![d] = RemoveAt(@, i)])
   /\ cause' = IF emits' = <<>> THEN "none" ELSE "recv"
   /\ UNCHANGED <<drops, dups, touts>>
 
+\* the second copy of a duplicated datagram: its protected records are discarded by the anti-replay window, its cleartext
+\* (epoch 0) handshake records - ClientHello, ServerHello - are not subject to the window and are processed again
+ClearPart(k) == IF k = <<"CH">> THEN k ELSE IF IsFlightDgram(k) /\ "SH" \in SetOf(k) THEN <<"SH">> ELSE <<>>
 DeliverStale(d) ==
-  /\ ~Done /\ stale[d] > 0
-  /\ stale' = [stale EXCEPT ![d] = @ - 1]
-  /\ emits' = <<>> /\ cause' = "none"
-  /\ UNCHANGED <<st, fl, retx, bk, est, gotCH, gotF5, pend, have, queue, owe, seenT, tick, q, drops, dups, reorders, touts>>
+  /\ ~Done /\ stale[d] # <<>>
+  /\ stale' = [stale EXCEPT ![d] = Tail(@)]
+  /\ IF ClearPart(Head(stale[d])) = <<>>
+     THEN /\ emits' = <<>>
+          /\ UNCHANGED <<st, fl, retx, bk, est, gotCH, gotF5, pend, have, queue, owe, seenT, tick, q>>
+     ELSE Process(d, ClearPart(Head(stale[d])), q)
+  /\ cause' = IF emits' = <<>> THEN "none" ELSE "recv"
+  /\ UNCHANGED <<drops, dups, reorders, touts>>
 
 Drop(d, i) ==
   /\ ~Done /\ drops < MaxDrop /\ i \in 1..Len(q[d])
@@ -230,7 +239,7 @@ Init ==
   /\ retx = [e \in E |-> TRUE] /\ bk = [e \in E |-> 0] /\ est = [e \in E |-> FALSE]
   /\ gotCH = FALSE /\ gotF5 = FALSE /\ pend = {} /\ have = {} /\ queue = {} /\ owe = {} /\ seenT = FALSE /\ tick = "none"
   /\ q = [d \in Dirs |-> IF d = "c2s" THEN << [k |-> <<"CH">>, c |-> "n"] >> ELSE <<>>]
-  /\ stale = [d \in Dirs |-> 0]
+  /\ stale = [d \in Dirs |-> <<>>]
   /\ drops = 0 /\ dups = 0 /\ reorders = 0 /\ touts = 0 /\ emits = << <<"CH">> >> /\ cause = "start" /\ hist = <<>>
 
 Names(ds) == [i \in 1..Len(ds) |-> Name(ds[i])]
